@@ -33,7 +33,7 @@ def generate(rng, tier):
                               "via_load": rng.choice(["path", "file", "load_lmpdat"]),
                               "read_script": rng.choice([None, {"chunk": "random", "seed": rng.getrandbits(16)}, {"chunk": "one"}, {"chunk": "prime"}]),
                               "fault": None, "read_fault": rng.random() if rng.random() < 0.25 else None,
-                              "pathkind": rng.choice(["std", "std", "odd_ext", "pathlib"]), "same_handle": rng.random() < 0.3})
+                              "pathkind": rng.choice(["std", "std", "odd_ext", "pathlib", "dotted"]), "same_handle": rng.random() < 0.3})
     if rng.random() < 0.25:
         for c in spec["cases"]:
             c["fault"] = rng.choice([{"enospc_after": rng.randint(0, 2500)}, {"eio_after": rng.randint(0, 2500)}, {"crash": "lost"},
